@@ -30,6 +30,8 @@ def run(ctx, sess):
     ctx.rule('C05.4', 'padding: writer and reader compute the same on-disk payload size for every byte residue, header + payload + pad + crc is a multiple of 8, the pad is zero-filled, the payload CRC is little-endian at the end')
     ctx.rule('C05.12', 'a repaired file has no INDEX without its SUMMARY: on the not-closed branch of jls_rd_open the tag of the last complete chunk is examined before the truncation, and when it is an INDEX (its SUMMARY was cut off by the crash) the cut moves to the chunk before it (jls_raw_chunk_prev) - the pair is written again by the rebuild')
     ctx.rule('C05.13', 'next-item pointers of a repaired file lead to chunks: pointer repair cuts the link of every chain end it keeps - index, summary and data chunk (shared with C03.r)')
+    ctx.rule('C05.15', 'track heads of a repaired file lead to chunks of the expected kind: what pointer repair changes in the head table in memory is written back on every success path (shared with C19.4) - a level that was dropped in memory only keeps its stale offset on disk, where the repair then appends chunks of another track')
+    ctx.rule('C05.16', 'the reader of a repaired file returns the time-series entries a walk of the file finds: for every track kind whose index the repair does not rebuild, the reader starts at level 0 and follows the DATA chain (shared with C17.9)')
     ctx.rule('C05.14', 'the recorded file length equals the file size also when the writer stopped after END: jls_rd_open remembers that the file header came without its length (TRUNCATED) and, on the path on which the END chunk is found, tests that before it succeeds (and then writes the header through a writable close)')
     ctx.rule('C05.11', 'FSR summary chunks carry what their header announces: the payload length handed to the summary writer is header + entry_count x the entry size that was stored in entry_size_bits (4 x f32 or 4 x f64, chosen by data type), not the size of a fixed struct type')
     ctx.rule('C05.5', 'previous-length bookkeeping: every successful append updates last_payload_length when at the end of the file (also for an empty payload)')
@@ -47,6 +49,10 @@ def run(ctx, sess):
     r11(ctx, P)
     r12(ctx, P)
     r14(ctx, P)
+    from .common import relay
+    from . import c19 as _c19, c17 as _c17
+    relay(ctx, sess, _c19.run, {'C19.4': 'C05.15'}, minimum=1)
+    relay(ctx, sess, _c17.run, {'C17.9': 'C05.16'}, minimum=1)
     from .c03 import repair_chains_rule
     repair_chains_rule(ctx, P, 'C05.13')
     r6(ctx, P)
